@@ -222,6 +222,22 @@ CHECKS["C06"] = dict(
           "equal pits only together with determinism of the solver (C12)."),
     ref="DESIGN.md section 4 C06")
 
+CHECKS["C16"] = dict(
+    engine="E5",
+    technique="contract-based deductive verification of the wiring: every create_* function is discovered from the AST and evaluated symbolically over untyped argument values with recording contracts for the pandas/pandapower callees; trace obligations (checks before writes, references checked, index checked/written/returned, written columns = component input columns, column <- parameter, bulk = plural of single, documented = signature defaults); bounded native stand-in for the assumed row writers",
+    text=("Proved for all argument values, per path of each of 26 create functions: every junction / std-type reference and the index are "
+          "passed to a check before the first write, nothing raises after a write, the written index is the checked one and is returned, "
+          "the written columns are exactly the component's input columns and column c carries parameter c (bool columns its truth value; "
+          "ext-grid type by _auto_ext_grid_type; pipe std-type columns the loaded type's parameters; mass storage content clamped as "
+          "documented); bulk functions write the same columns from the plural parameters with the same defaults and the plural checks; "
+          "documented defaults equal the signature defaults; _check_std_type raises exactly for unknown types."),
+    note=(TB + "ASSUMED (A4): _set_entries / _set_multiple_entries add exactly the rows `index` with the given entries and keep the column dtypes "
+          "(pandas), pandapower's _check_* / _get_*index_with_check raise for unknown references / duplicate indices, without touching the net; the "
+          "deprecated_input decorators are not applied. These assumptions and create_valves / create_heat_consumers (numpy bookkeeping over untyped "
+          "sequences, outside the subset) are exercised by a BOUNDED native stand-in on one small net (not proved). Geodata branches of "
+          "create_junctions are evaluated with geodata=None. A raise inside _preserve_dtypes after the write (NaN in a bool column) is not covered."),
+    ref="DESIGN.md section 4 C16")
+
 NOT_APPLICABLE = {
     "C08": "uniqueness of the solution of the nonlinear system within tolerances and convergence of damped Newton in floating point: a whole-history/analytic property, no pre/post contract within reach expresses it (DESIGN.md section 5)",
     "C15": "the save/load round trip is the behaviour of pandapower/pandas/json/pickle/scipy object state; a contract strong enough would have to assume the property (DESIGN.md section 5)",
